@@ -21,6 +21,20 @@ func init() {
 			a := sem.Ver{Major: rt.ArgUint(v, "a_major"), Minor: rt.ArgUint(v, "a_minor"), Patch: rt.ArgUint(v, "a_patch"), PreRelease: rt.ArgString(v, "a_pre"), Build: rt.ArgString(v, "a_build")}
 			b := sem.Ver{Major: rt.ArgUint(v, "b_major"), Minor: rt.ArgUint(v, "b_minor"), Patch: rt.ArgUint(v, "b_patch"), PreRelease: rt.ArgString(v, "b_pre"), Build: rt.ArgString(v, "b_build")}
 			c06Pair(w, a, b, true)
+			// the same pair with the pre-release strings sharing memory, when one is a prefix or suffix of the other
+			switch {
+			case a.PreRelease != "" && strings.HasPrefix(b.PreRelease, a.PreRelease):
+				a.PreRelease = b.PreRelease[:len(a.PreRelease)]
+			case a.PreRelease != "" && strings.HasSuffix(b.PreRelease, a.PreRelease):
+				a.PreRelease = b.PreRelease[len(b.PreRelease)-len(a.PreRelease):]
+			case b.PreRelease != "" && strings.HasPrefix(a.PreRelease, b.PreRelease):
+				b.PreRelease = a.PreRelease[:len(b.PreRelease)]
+			case b.PreRelease != "" && strings.HasSuffix(a.PreRelease, b.PreRelease):
+				b.PreRelease = a.PreRelease[len(a.PreRelease)-len(b.PreRelease):]
+			default:
+				return
+			}
+			c06Pair(w, a, b, true)
 		})
 		return c.Report()
 	}
@@ -345,6 +359,37 @@ func runC06(c *rt.Ctx) {
 			}
 		}
 	})
+
+	// pre-release strings that share memory: one is a prefix or a suffix slice of the other, or both were
+	// parsed out of one text buffer (string headers with equal data pointers and different lengths)
+	c.Parallel("shared-backing-strings", 0, func(w *rt.W) {
+		for i := w.Shard; i < len(uCheap); i += w.NShards {
+			s := uCheap[i]
+			for cut := 1; cut < len(s); cut++ {
+				for _, part := range []string{s[:cut], s[cut:]} {
+					if !ref.ValidPre(part) {
+						continue
+					}
+					a := sem.Ver{Major: 1, PreRelease: part}
+					b := sem.Ver{Major: 1, PreRelease: s}
+					w.ClassN(c06Pair(w, a, b, true), 1)
+					w.ClassN(c06Pair(w, b, a, true), 1)
+					w.ClassN("pre-releases-sharing-memory", 1)
+					w.NT(1)
+				}
+				text := "1.0.0-" + s
+				if pa, err := sem.Parse(text); err == nil && ref.ValidPre(s[:cut]) {
+					if pb, err := sem.Parse(text[:6+cut]); err == nil {
+						w.ClassN(c06Pair(w, pa, pb, false), 1)
+						w.ClassN(c06Pair(w, pb, pa, false), 1)
+						w.ClassN("versions-parsed-from-one-buffer", 1)
+					}
+				}
+			}
+		}
+	})
+	c.Require("pre-releases-sharing-memory", 1000)
+	c.Require("versions-parsed-from-one-buffer", 1000)
 
 	// cores
 	coreVals := []uint64{0, 1, 1 << 63, ^uint64(0) - 1, ^uint64(0), 2, 10, 1<<63 - 1, 1<<32 - 1, 1 << 32}
